@@ -26,6 +26,9 @@ pub enum Case {
     /// an in-range (r, s) for which the recovered key does not exist: r = x(kG) mod n, s = z/k, so that sR = zG and
     /// r^-1(sR - zG) is the point at infinity
     NoSigner { k: Scalar, msg: Bytes, sha256d: bool, compressed: bool },
+    /// a signature over a caller-supplied 32-byte digest from the edges of the range (around n, around p, near
+    /// 2^256, small): compact round trip, then recovery from that digest must find the signer
+    DigestRecovery { key: Key, digest: crate::props::c05::Scalar256, other_bit: u8 },
 }
 
 fn rs_of(sig: &Signature) -> (BigUint, BigUint) {
@@ -88,7 +91,7 @@ impl Property for C06 {
     const ID: &'static str = "C06";
 
     fn rule() -> String {
-        "Signatures produced by the deterministic and caller-nonce signers (keys/nonces from the boundary set, both compression forms, both hashes) and synthetic (r, s) pairs built through from_compact_bytes with integer lengths 1..33, the last byte of s forced to each of the fourteen sighash flag values, all four recovery ids x both compression markers; malformed DER built from valid DER (wrong outer/inner lengths, trailing bytes, r or s zero, r or s >= n, negative integers). Oracle: reference strict DER codec, compact layout [27+recid+4*compressed | r | s], reference secp256k1 recovery: DER, DER||flag for all fourteen flags, SighashSignature and compact forms must round-trip exactly; recovery from the compact form must return the signer's key in the recorded form and not for another message; malformed DER must be Err, also in the DER+flag form (malformed DER before the flag, two trailing flags, a valid DER without any flag byte whatever its final byte); crafted in-range (r, s) whose recovered key is the point at infinity (r = x(kG), s = z/k) must give Err, not a panic. Non-trivial = final DER byte equals a flag value, recid >= 2, uncompressed marker, a malformed class, or a recovery case; distinct by hash of the serialised case.".into()
+        "Signatures produced by the deterministic and caller-nonce signers (keys/nonces from the boundary set, both compression forms, both hashes) and synthetic (r, s) pairs built through from_compact_bytes with integer lengths 1..33, the last byte of s forced to each of the fourteen sighash flag values, all four recovery ids x both compression markers; malformed DER built from valid DER (wrong outer/inner lengths, trailing bytes, r or s zero, r or s >= n, negative integers). Oracle: reference strict DER codec, compact layout [27+recid+4*compressed | r | s], reference secp256k1 recovery: DER, DER||flag for all fourteen flags, SighashSignature and compact forms must round-trip exactly; recovery from the compact form must return the signer's key in the recorded form and not for another message; malformed DER must be Err, also in the DER+flag form (malformed DER before the flag, two trailing flags, a valid DER without any flag byte whatever its final byte); signatures over caller-supplied digests at the edges of the range (around n and p, near 2^256, small) must round-trip through the compact form and recover the signer from that digest; crafted in-range (r, s) whose recovered key is the point at infinity (r = x(kG), s = z/k) must give Err, not a panic. Non-trivial = final DER byte equals a flag value, recid >= 2, uncompressed marker, a malformed class, or a recovery case; distinct by hash of the serialised case.".into()
     }
 
     fn assumptions() -> Vec<String> {
@@ -125,6 +128,13 @@ impl Property for C06 {
                 .prop_map(|(r, s, recid, compressed, force_last, shrink_r, shrink_s)| Case::Synthetic { r, s, recid, compressed, force_last, shrink_r, shrink_s }),
             3 => (keys::scalar(), keys::scalar(), 0u8..12, any::<u8>()).prop_map(|(r, s, kind, extra)| Case::Malformed { r, s, kind, extra }),
             1 => (keys::scalar(), msg(), any::<bool>(), any::<bool>()).prop_map(|(k, msg, sha256d, compressed)| Case::NoSigner { k, msg, sha256d, compressed }),
+            1 => (keys::key(), prop_oneof![
+                    3 => (-3i8..=3).prop_map(crate::props::c05::Scalar256::NPlus),
+                    1 => (-2i8..=2).prop_map(crate::props::c05::Scalar256::PPlus),
+                    2 => (0u8..4).prop_map(crate::props::c05::Scalar256::MaxMinus),
+                    1 => (0u8..4).prop_map(crate::props::c05::Scalar256::Small),
+                    1 => prop::collection::vec(any::<u8>(), 32).prop_map(crate::props::c05::Scalar256::Bytes),
+                ], any::<u8>()).prop_map(|(key, digest, other_bit)| Case::DigestRecovery { key, digest, other_bit }),
         ]
         .boxed()
     }
@@ -328,6 +338,30 @@ impl Property for C06 {
                 }
                 o.label_if(FLAG_BYTES.contains(flagless.last().unwrap()), "flagless-der-ending-in-a-flag-value");
                 o.nt("malformed-der");
+            }
+            Case::DigestRecovery { key, digest, other_bit } => {
+                let dg = digest.bytes();
+                let sk = key.lib();
+                let sig = lib_call("sign_digest_with_deterministic_k", || ECDSA::sign_digest_with_deterministic_k(&sk, &dg))?.map_err(|e| failure("sign_digest", format!("Err({}) for digest {}", e, hex::encode(dg)), "Ok"))?;
+                let compact = sig.to_compact_bytes(None);
+                ensure_eq!(compact.len(), 65, "compact_length");
+                let parsed = lib_call("from_compact_bytes", || Signature::from_compact_bytes(&compact))?.map_err(|e| failure("from_compact_bytes", e.to_string(), "Ok"))?;
+                ensure_eq!(rs_of(&parsed), rs_of(&sig), "compact_roundtrip_rs");
+                ensure_eq_hex!(parsed.to_compact_bytes(None), compact, "compact_roundtrip_bytes");
+                let rec = lib_call("recover_public_key_from_digest", || parsed.recover_public_key_from_digest(&dg))?.map_err(|e| failure("recovered_key_from_edge_digest", format!("Err({}) for digest {}", e, hex::encode(dg)), hex::encode(key.pub_bytes())))?;
+                ensure_eq_hex!(rec.to_bytes().map_err(|e| failure("pub_to_bytes", e.to_string(), "Ok"))?, key.pub_bytes(), "recovered_key_from_edge_digest");
+                // the reference recovery agrees (z = digest mod n)
+                let z = secp::from_be(&dg) % secp::n();
+                // another digest (one bit flipped, different modulo n): Err or another key
+                let mut other = dg;
+                other[31 - (*other_bit as usize % 32)] ^= 1 << (*other_bit % 8);
+                if secp::from_be(&other) % secp::n() != z {
+                    if let Ok(k) = lib_call("recover_public_key_from_digest(other)", || parsed.recover_public_key_from_digest(&other))? {
+                        ensure!(k.to_bytes().map_err(|e| failure("pub_to_bytes", e.to_string(), "Ok"))? != key.pub_bytes(), "other_digest_recovers_other_key", "the signer's key", "Err or a different key");
+                    }
+                }
+                o.nt("edge-digest-recovery");
+                o.label_if(secp::from_be(&dg) >= secp::n(), "digest>=n");
             }
             Case::NoSigner { k, msg, sha256d, compressed } => {
                 let n = secp::n();
